@@ -8,6 +8,8 @@ mod cmds;
 mod forms;
 #[cfg(feature = "ark")]
 mod bls;
+#[cfg(feature = "ark")]
+mod r1cs;
 
 fn main() {
     panic::set_hook(Box::new(|_| {}));
